@@ -1439,6 +1439,7 @@ type Result struct {
 	Bubbles   int      `json:"bubbles"`
 	Hung      int      `json:"hung"`
 	Crashed   string   `json:"crashed,omitempty"` // parent only: the child died on this input
+	Skipped   bool     `json:"skipped,omitempty"` // parent only: not run (the process had died on too many inputs before)
 	AsyncTimer bool    `json:"async_timer,omitempty"` // real-time items: the process had the buffered (pre-1.23) timer channels
 	Noisy     int      `json:"noisy,omitempty"`       // real-time items: repetitions discarded because the machine was late
 }
@@ -1604,6 +1605,10 @@ func realItem(i int, w Work, async bool) Result {
 
 // runChildren runs the work items in a child process (this test binary), restarted after the item on which it
 // dies; one Result per item.
+// maxCrashes: after the process has died on this many inputs the remaining inputs are left out (counted and
+// noted); the inputs run so far, the deaths among them, are reported as usual.
+const maxCrashes = 24
+
 func runChildren(t *testing.T, dir string, tag string, work []Work, env []string, crashes *int) []Result {
 	workFile, resFile := dir+"/work_"+tag+".json", dir+"/results_"+tag+".jsonl"
 	data, _ := json.Marshal(work)
@@ -1651,8 +1656,12 @@ func runChildren(t *testing.T, dir string, tag string, work []Work, env []string
 				msg = "child stopped early: " + msg
 			}
 			results = append(results, Result{Index: len(results), Crashed: msg})
-			if *crashes > 40 {
-				t.Fatalf("the harness process died on more than 40 inputs; last: %s", msg)
+			if *crashes > maxCrashes {
+				// every input on which the process died is reported as a panic outcome (a concrete replay each);
+				// the rest of the inputs is not run: restarting the process for each of them buys nothing more
+				for len(results) < len(work) {
+					results = append(results, Result{Index: len(results), Skipped: true})
+				}
 			}
 		}
 	}
@@ -1878,6 +1887,10 @@ func TestC02(t *testing.T) {
 	bubbles, hungObs := 0, 0
 	for i, w := range work {
 		res := results[i]
+		if res.Skipped {
+			col.Count("input-not-run-after-too-many-process-deaths")
+			continue
+		}
 		id := col.NextID()
 		bubbles += res.Bubbles
 		hungObs += res.Hung
